@@ -120,12 +120,22 @@ CHECKS.update({
                 technique="deterministic simulation: seeded mutation/poison injection beside a healthy workload"),
 })
 
+CHECKS.update({
+    "C15": dict(level="exploration",
+                text="Seeded search over parent/child machine pairs (all integration forms, child outcomes, placements, "
+                     "workflow types, invalid combinations) and task-token callback streams interleaved by the simulated "
+                     "scheduler; result-shape, completion-instant, exactly-once-completion, InvalidToken and cancellation-"
+                     "propagation oracles.",
+                ref="5/C15", note=NOTE_BASE + "; single engine instance.",
+                technique="deterministic simulation: seeded scenario/schedule exploration with virtual-time oracles"),
+})
+
 NA = [
     ("C12", "pure functions of (document, path, result): no schedule, clock, fault or interleaving to simulate"),
     ("C13", "pure function of (template, input, context): no schedule, clock, fault or interleaving to simulate"),
     ("C14", "pure function of (rule tree, input): no schedule, clock, fault or interleaving to simulate"),
 ]
-NOT_YET = {'C11': 'check not built yet (in progress)', 'C15': 'check not built yet (in progress)', 'C19': 'check not built yet (in progress)', 'C20': 'check not built yet (in progress)'}
+NOT_YET = {'C11': 'check not built yet (in progress)', 'C19': 'check not built yet (in progress)', 'C20': 'check not built yet (in progress)'}
 
 FIX_COMMITS = []
 
